@@ -308,6 +308,10 @@ func (s *SMF) WriteTo(f io.Writer) (size int64, err error) {
 			}
 		}
 
+		if err != nil {
+			break
+		}
+
 		err = wr.writeChunkTo(wr.output)
 
 		if err != nil {
@@ -315,7 +319,7 @@ func (s *SMF) WriteTo(f io.Writer) (size int64, err error) {
 		}
 	}
 
-	return wr.output.size, nil
+	return wr.output.size, err
 }
 
 func (s *SMF) log(format string, vals ...interface{}) {
